@@ -345,6 +345,9 @@ class Interp:
             for hook in f.attrs.get("__forward_hooks__", []):
                 self.call_value(hook, [f, tuple(args), out], {}, node)
             return out
+        if isinstance(f, Op) and f.op.startswith("attr_") and len(f.args) == 1 and isinstance(f.args[0], Term) and f.op[5:] not in TENSOR_ATTRS and not f.kw:
+            # a bound tensor method taken as a value (`reduce = input.max if largest else input.min`) and called later
+            return self.tensor_method(f.args[0], f.op[5:], args, kwargs, node)
         if isinstance(f, Term):
             self.ev("opaque_call", callee=f, args=args, kwargs=dict(kwargs), node=node)
             return Op("call", (f,) + tuple(args), kwargs)
@@ -376,7 +379,42 @@ class Interp:
         init = self.prog.lookup_method(q, "__init__")
         if init is not None:
             self.call_function(init, args, kwargs, self_obj=obj)
+            return obj
+        dc = self.dataclass_fields(q)
+        if dc is not None:
+            names_, defaults_ = dc
+            for f_, v_ in zip(names_, args):
+                obj.attrs[f_] = v_
+            for f_ in names_:
+                if f_ in kwargs:
+                    obj.attrs[f_] = kwargs[f_]
+                elif f_ not in obj.attrs and f_ in defaults_:
+                    ci_ = self.prog.classes[q]
+                    obj.attrs[f_] = self.eval(defaults_[f_], {"__module__": ci_.module, "__parent__": None, "__cls__": q})
+            missing_ = [f_ for f_ in names_ if f_ not in obj.attrs]
+            if missing_:
+                raise PathRaises(f"TypeError: missing field {missing_[0]}", node)
+            post = self.prog.lookup_method(q, "__post_init__")
+            if post is not None:
+                self.call_function(post, [], {}, self_obj=obj)
         return obj
+
+    def dataclass_fields(self, q):
+        """(field names in definition order over the MRO, defaults) if class q is a @dataclass"""
+        names, defaults, any_dc = [], {}, False
+        for c in reversed(self.prog.mro(q)):
+            ci = self.prog.classes.get(c)
+            if ci is None:
+                continue
+            if any(ast.unparse(d).split("(")[0].split(".")[-1] == "dataclass" for d in ci.node.decorator_list):
+                any_dc = True
+                for st in ci.node.body:
+                    if isinstance(st, ast.AnnAssign) and isinstance(st.target, ast.Name) and "ClassVar" not in ast.unparse(st.annotation):
+                        if st.target.id not in names:
+                            names.append(st.target.id)
+                        if st.value is not None:
+                            defaults[st.target.id] = st.value
+        return (names, defaults) if any_dc else None
 
     def namedtuple_fields(self, q):
         """(field names in order, {name: default expr}) if class q is a named tuple: `class X(NamedTuple): a: T; b: T = d` (own or inherited
